@@ -113,6 +113,22 @@ Theorem C15_gathered_vector_histogram : forall (c : hist_cfg (T := R)) (weights 
 Proof. exact gathered_vector_histogram. Qed.
 Print Assumptions C15_gathered_vector_histogram.
 
+(* A component outside [lower, lower + n*w) has a bin index outside [0, n) -- in particular a value in the open strip
+   (lower - w, lower) has index -1, not 0 -- and a sample (scalar, or one element of gathered vector variables, binned
+   by the same function) with a component outside the grid changes nothing and carries no weight into any bin. *)
+Theorem C15_outside_the_grid_no_bin : forall (l w x : R) (n : Z), (0 < w)%R ->
+  ((x < l)%R -> (value_to_bin Rops l w x < 0)%Z) /\
+  ((l + IZR n * w <= x)%R -> (n <= value_to_bin Rops l w x)%Z) /\
+  ((l <= x < l + IZR n * w)%R -> (0 <= value_to_bin Rops l w x < n)%Z).
+Proof. exact outside_no_bin. Qed.
+Print Assumptions C15_outside_the_grid_no_bin.
+
+Theorem C15_out_of_grid_sample_ignored : forall (c : hist_cfg (T := R)) (data : list R) (s : list R * R),
+  index_ok (h_nx c) (bins Rops (h_lower c) (h_width c) (fst s)) = false ->
+  acc_sample Rops c data s = data /\ weight_in c s = 0%R /\ forall a, weight_at c a s = 0%R.
+Proof. exact out_of_grid_sample_ignored. Qed.
+Print Assumptions C15_out_of_grid_sample_ignored.
+
 (* ===================== second half: grid files (model in GridIOModel.v) =====================
    Grids are written to / read from lists of abstract tokens; a number is a value of the carrier (the
    decimal formatting of numbers and its rounding are outside the model: the theorems say that the
@@ -325,4 +341,13 @@ Proof.
   - rewrite Rabs_R1. cbn. lra.
   - cbn. repeat split; intros; try lra; repeat constructor.
   - repeat constructor; lra.
+Qed.
+
+(* non-vacuity: a value in the strip one bin wide below the grid [1, 3) of width 1/2 *)
+Example C15_example_strip : (0 < 1 / 2)%R /\ (3 / 4 < 1)%R /\
+  index_ok [4%Z] (bins Rops [1%R] [(1 / 2)%R] [(3 / 4)%R]) = false.
+Proof.
+  split; [lra|]. split; [lra|]. cbn [bins index_ok].
+  assert (H : value_to_bin Rops 1%R (1 / 2)%R (3 / 4)%R = (-1)%Z) by (apply bin_unique; [lra | cbn; lra]).
+  rewrite H. reflexivity.
 Qed.
